@@ -513,6 +513,33 @@ impl Part for Variants {
     }
 }
 
+/// `GRAPH ?g { ... }` joins whose patterns use the graph variable as a term (see `graph_var_term_strategy`), through all
+/// the variants of the main part.
+struct GraphVarTerm;
+impl Part for GraphVarTerm {
+    type Case = Case;
+    fn name(&self) -> &'static str {
+        "graph-var-term"
+    }
+    fn cases(&self, tier: Tier) -> u32 {
+        tier.pick(400, 6_000)
+    }
+    fn strategy(&self, tier: Tier) -> BoxedStrategy<Case> {
+        (graph_var_term_strategy(), dataset_strategy(6, 4), any::<bool>(), proptest::collection::vec(any::<u64>(), 3), proptest::collection::vec(any::<u32>(), 16), proptest::collection::vec(any::<u64>(), tier.pick(8, 40)))
+            .prop_map(|((data, query), data2, use_prefix, perm_seeds, adv, assign_seeds)| Case { data, data2, query, use_prefix, perm_seeds, adv, assign_seeds })
+            .boxed()
+    }
+    fn check(&self, c: &Case) -> Outcome {
+        check_case(c)
+    }
+    fn describe(&self, c: &Case) -> serde_json::Value {
+        json!({"query": Printer { use_prefix: c.use_prefix }.query(&c.query), "default_triples": c.data.default.len(), "named_graphs": c.data.named.len()})
+    }
+    fn max_shrink_iters(&self, tier: Tier) -> u32 {
+        tier.pick(150, 400)
+    }
+}
+
 fn main() {
     let mut s = Session::start(
         "C02",
@@ -527,5 +554,6 @@ fn main() {
     s.assume("C01 fragment restriction (a): FILTER/BIND only mention variables certainly bound in their own group - the condition under which bind, hash and nested-loop joins are specified to agree");
     s.assume("thread schedules are perturbed only through pool sizes; the harness does not own the OS scheduler");
     s.run(&Variants);
+    s.run(&GraphVarTerm);
     std::process::exit(s.finish());
 }
